@@ -104,8 +104,6 @@ func caseModelled(s string) bool {
 	return true
 }
 
-func truncFloatModelled(bits uint64) bool { return true }
-
 func scalarModelled(e sx.Sexp, d dir) bool {
 	if !d.ok {
 		return true // the parse error is modelled
@@ -114,7 +112,11 @@ func scalarModelled(e sx.Sexp, d dir) bool {
 	case "i", "b":
 		return strings.IndexByte("eEfgG", d.letter) < 0
 	case "f":
-		return strings.IndexByte("eEfgGsp", d.letter) < 0 && truncFloatModelled(0)
+		u, _ := strconv.ParseUint(e.Args()[0].Atom, 10, 64)
+		if fl := math.Float64frombits(u); math.IsNaN(fl) || math.IsInf(fl, 0) {
+			return false // not instances of Float: the implementation falls back to the default format
+		}
+		return strings.IndexByte("eEfgGsp", d.letter) < 0
 	case "s":
 		s := e.Args()[0].MustStr()
 		if !utf8.ValidString(s) {
@@ -151,9 +153,6 @@ func modelled(e sx.Sexp, m []entry, entryMode bool) bool {
 	if !n.d.ok {
 		return true
 	}
-	if n.d.sharp {
-		return false
-	}
 	cf := defaultCF
 	if n.hasCf {
 		cf = n.cf
@@ -179,9 +178,6 @@ func modelled(e sx.Sexp, m []entry, entryMode bool) bool {
 		an := lookup(m, "a", nil)
 		if !an.d.ok {
 			return true
-		}
-		if an.d.sharp {
-			return false
 		}
 		acf := defaultCF
 		if an.hasCf {
